@@ -137,6 +137,7 @@ class FxBuilder(Builder):
         self._value_eq = None
         self.discr_domain = {}
         self._tbl_cache = {}
+        self._model_nodes = []
 
     def default_inline(self, fn):
         return fn.krate in self.crates and len(fn.body.blocks) <= self.max_blocks and fn.def_path not in self.stop
@@ -779,7 +780,11 @@ class FxBuilder(Builder):
         spliced = False
         veq = self._value_eq_call(name, args)
         if veq is None:
-            veq = self._ext_model(base, args, fr.depth)
+            self._model_nodes = []
+            veq = self._ext_model(base, args, fr.depth, f.get("hidden") or [])
+            for mn in self._model_nodes:
+                nodes.append(mn[:4] + (site,) + mn[5:])
+            self._model_nodes = []
         if veq is None and name.startswith("<u") and "Assign>::" in name and len(args) == 2:
             opn = {"bitxor_assign": "BitXor", "bitor_assign": "BitOr", "bitand_assign": "BitAnd",
                    "add_assign": "Add", "sub_assign": "Sub"}.get(name.split("::")[-1])
@@ -839,7 +844,7 @@ class FxBuilder(Builder):
                 self._store_local(fr, d, ret)
         return t["t"]
 
-    def _ext_model(self, base, args, depth):
+    def _ext_model(self, base, args, depth, hidden=()):
         """Constructor-level models of a few std combinators, applied only when the argument is a
         literally known variant (aggregate); otherwise None (the call stays an opaque event)."""
         if not base or not args:
@@ -865,6 +870,16 @@ class FxBuilder(Builder):
             return a0[3][0]
         if last == "unwrap_or" and len(args) == 2:
             return a0[3][0] if v in ("Some", "Ok") else args[1]
+        if last == "unwrap_or_else" and len(args) == 2:
+            if v in ("Some", "Ok"):
+                return a0[3][0]
+            clos = [h for h in hidden if h in self.facts.fns]
+            if len(clos) == 1 and depth < self.max_depth:
+                sub, ret = self._subtree(self.facts.fns[clos[0]], (args[1],), depth + 1)
+                if ret is not None and not any(n[0] in ("store",) for n, _c, _i in walk_tree(sub)):
+                    # keep the closure's subtree in the event list: its switches decide the phi values of `ret`
+                    self._model_nodes.append(("inlined", clos[0], (args[1],), sub, None, ret))
+                    return ret
         if last == "branch" and "Try" in base:
             if v in ("Some", "Ok"):
                 return ("agg", CF, "Continue", a0[3])
@@ -905,6 +920,8 @@ class FxBuilder(Builder):
         for suffix, op in ((" as core::cmp::PartialEq>::eq", "Eq"), (" as core::cmp::PartialEq>::ne", "Ne")):
             if name.endswith(suffix) and name.startswith("<") and len(args) == 2:
                 t = name[1:-len(suffix)]
+                if t.startswith("core::option::Option<") and t.endswith(">") and t[len("core::option::Option<"):-1] in self.value_eq_types():
+                    t = t[len("core::option::Option<"):-1]
                 if t in self.value_eq_types():
                     vals = []
                     for a in args:
